@@ -313,6 +313,18 @@ func snapshotEndorsement(ctx context.Context, cops ChangeOps, endorsement *epb.V
 			files = append(files, &File{Path: svsmSCRTMPath, Contents: scrtm})
 		}
 	}
+	// As for the manifest method, an existing endorsement is only replaced with --overwrite.
+	if !output.AllowOverwrite(ctx) {
+		for _, p := range endorsementPaths {
+			exists, err := fileExists(ctx, cops, p)
+			if err != nil {
+				return err
+			}
+			if exists {
+				return fmt.Errorf("cannot overwrite existing file without --overwrite %s", p)
+			}
+		}
+	}
 	if err := writeEndorsement(ctx, endorsementPaths, endorsement, cops); err != nil {
 		return err
 	}
